@@ -22,11 +22,21 @@
                   copied over the one in the other directory -- while no process runs, while a TocCache
                   object is idle, and between the start of a connection and a look-up (EnvStages)   (environment)
 
+     InsertFail   open(name, 'w') raises (directory gone / name taken by a directory): caught, nothing stored
+     RemoveDir / BlockName   the whole directory disappears / a directory takes the name of a cache file  (environment)
+     OtherBegin / OtherWrite / OtherEnd   ANOTHER cache object (second Crazyflie of a swarm in its own thread,
+                  another client process) stores a table under another checksum in one of our directories, its
+                  open / writes / close interleaved with our steps at any point                           (environment)
+   A file remembers under which checksum its content was stored (`under`): a complete file whose name says
+   another checksum is "foreign" to the property (Bug = "sharedtmp": one scratch name + rename per directory).
+
    Two physical directories "A" and "B"; every process chooses which (if any) is its read-only
    and which its read-write cache, so every combination occurs and a directory filled as rw by
    one process can be the ro of the next.
 
-   Bug = "none" is the code as read ("toctou": a file test outside the try of fetch).  Other values are the breakages named in DESIGN 5/C11; each
+   Bug = "none" is the code as read ("toctou": a file test outside the try of fetch; "sharedtmp": shared scratch
+   file + os.replace; "openfail": the clean-up after a failed open raises again; "nontable": a decoded non-table
+   JSON value is returned as a hit).  Other values are the breakages named in DESIGN 5/C11; each
    has a MC_TocCache_bug_*.cfg that TLC must refute. *)
 EXTENDS Naturals, Sequences, FiniteSets, TLC
 
